@@ -31,6 +31,14 @@ def _simplifications(spec):
         t = copy.deepcopy(s)
         t["knobs"]["do_timing"] = False
         out.append(("timing knob off", t))
+    if kn.get("sched") or kn.get("preempt_every"):
+        t = copy.deepcopy(s)
+        t["knobs"]["sched"], t["knobs"]["preempt_every"] = [], 0
+        out.append(("default scheduling, no pre-emption", t))
+        if kn.get("sched") and len(kn["sched"]) > 1:
+            t = copy.deepcopy(s)
+            t["knobs"]["sched"] = kn["sched"][: len(kn["sched"]) // 2]
+            out.append(("half the scheduling decisions", t))
     if kn.get("clock_jumps"):
         t = copy.deepcopy(s)
         t["knobs"]["clock_jumps"] = []
